@@ -284,7 +284,7 @@ func modelKeyMsg(k MVal) []byte {
 			continue
 		case MU64:
 			out = append(out, 0xd8, tagU64)
-			return appendCBORHead(out, 0, uint64(x))
+			return appendCBORHead(out, 0, uint64(x)>>hipShift)
 		case MStr:
 			out = appendCBORHead(out, 3, uint64(len(x)))
 			return append(out, x...)
